@@ -150,11 +150,18 @@ MNames == {<<1>>, <<1, TAB, 1>>, <<NL>>, <<BSL, 7>>}
 MTags  == { <<>>, << <<ROLE, <<1, TAB>>>> >>, << <<ROLE, <<1>>>>, <<<<1>>, <<1, COMMA, 1>>>> >>, << <<<<1, 10>>, <<NL, EQ>>>> >> }
 Mem(n, ad, t) == [name |-> n, addr |-> ad, tags |-> t]
 Members1 == { <<Mem(n, ad, t)>> : n \in MNames, ad \in 1..3, t \in MTags }
+\* tag KEYS (not only names, roles and values) from the hostile alphabet: tab, newline, backslash, comma, equals
+KeyTags == { << <<<<1, TAB, 1>>, <<1>>>> >>, << <<<<NL>>, <<1>>>> >>, << <<<<1, NL, 1>>, <<TAB>>>> >>,
+             << <<<<BSL, 7>>, <<1>>>> >>, << <<<<1, COMMA, 1>>, <<EQ>>>> >>, << <<<<EQ>>, <<1>>>> >>,
+             << <<ROLE, <<1>>>>, <<<<TAB>>, <<NL>>>> >>, << <<<<1, TAB>>, <<1>>>>, <<<<NL, 1>>, <<COMMA>>>> >> }
+Members3 == { <<Mem(<<1>>, 1, t)>> : t \in KeyTags } \cup { <<Mem(<<1>>, 2, <<>>), Mem(<<1, 1>>, 1, t)>> : t \in KeyTags }
 Members2 == { <<Mem(<<1>>, 1, t), Mem(n, 2, <<>>)>> : n \in MNames, t \in MTags }
 MembersIn == { Rec("members", <<>>, It(ty, 0), <<>>, <<1>>, <<>>, 0, m, <<>>, 0, 0, 0, "-") :
                  ty \in {"member-join", "member-failed"}, m \in {<<>>} \cup Members1 }
              \cup { Rec("members", <<>>, It(ty, 0), <<>>, <<1>>, <<>>, 0, m, <<>>, 0, 0, 0, "-") :
                  ty \in {"member-leave", "member-update", "member-reap"}, m \in Members2 }
+             \cup { Rec("members", <<>>, It(ty, 0), <<>>, <<1>>, <<>>, 0, m, <<>>, 0, 0, 0, "-") :
+                 ty \in {"member-join", "member-update"}, m \in Members3 }
 
 Payloads == {<<>>, <<1>>, <<1, NL>>, <<NL>>, <<1, NL, 1>>, <<NL, NL>>, <<TAB, 1>>, <<1, 1, 1>>}
 PayloadIn == { Rec("payload", <<>>, It(ty, 0), <<1>>, <<1>>, <<>>, 1, <<>>, p, 0, 0, 0, "-") : ty \in {"user", "query"}, p \in Payloads }
